@@ -433,6 +433,20 @@ class LoopMixin:
             if extra["result"] is not result:
                 result = extra["result"]
                 run.contract_calls[-1]["value"] = result
+            for inst in cc.ghost_instances:
+                # the callee's universally quantified ghosts, instantiated once more with the given expressions over its parameters
+                f_i = E.Frame("<spec>", ci, dict(sframe.locals), None, "callee-spec")
+                self.pure += 1
+                try:
+                    vals = {g_: self.eval(V.parse_clause(ex_), sframe) for g_, ex_ in inst.items()}
+                finally:
+                    self.pure -= 1
+                f_i.locals.update(vals)
+                for lbl, ex in list(cc.ensures.items()) + list(cc.always.items()):
+                    try:
+                        self.assume_clause(V.parse_clause(ex), f_i, dict(extra))
+                    except E.PyExc:
+                        pass
             if cc.use_invariants:
                 rcls = run.rec(recv.oid).cls
                 for lbl, ex in V.class_clauses(self.reg.invariants, rcls):
